@@ -515,6 +515,116 @@ func c12PathToPointer(path string) string {
 	return b.String()
 }
 
+// ---- inferred entry points -----------------------------------------------------------------------
+
+// c12RenameDef returns a copy of d in which definition `old` (and every reference to it) is called `name`.
+func c12RenameDef(d *Defs, old, name string) *Defs {
+	c, err := parseDefsSexp(d.sexp())
+	if err != nil {
+		return nil
+	}
+	var walk func(s *Src)
+	walk = func(s *Src) {
+		if s == nil {
+			return
+		}
+		if s.Kind == SRef && s.Ref == old {
+			s.Ref = name
+		}
+		walk(s.Elem)
+		for i := range s.Fields {
+			walk(s.Fields[i].Ty)
+		}
+		for _, a := range s.Alts {
+			walk(a)
+		}
+		for i := range s.Branches {
+			if s.Branches[i].Name == old {
+				s.Branches[i].Name = name
+			}
+		}
+	}
+	for i := range c.Items {
+		if c.Items[i].Name == old {
+			c.Items[i].Name = name
+		}
+		walk(c.Items[i].Ty)
+	}
+	if c.Root == old {
+		c.Root = name
+	}
+	return c
+}
+
+func c12RefersTo(d *Defs, name string) bool {
+	return strings.Contains(d.sexp(), "(ref "+virQuote(name)+")") || strings.Contains(d.sexp(), " "+virQuote(name)+")")
+}
+
+// c12Casings: spellings of a package name that match it case-insensitively.
+func c12Casings(pkg string) []string {
+	mixed := []byte(strings.ToLower(pkg))
+	for i := range mixed {
+		if i%2 == 1 && mixed[i] >= 'a' && mixed[i] <= 'z' {
+			mixed[i] -= 32
+		}
+	}
+	cap := strings.ToUpper(pkg[:1]) + strings.ToLower(pkg[1:])
+	return []string{strings.ToLower(pkg), cap, strings.ToUpper(pkg), string(mixed)}
+}
+
+// c12AddEntryCase adds a case whose entry point cog has to INFER (InferEntrypoint: the object named like
+// the package, compared case-insensitively): the root definition is renamed to a casing of the package
+// name (= the case ID the lab is about to assign). JSON Schema input: the root type is written at the
+// top level of the document instead of behind a root `$ref` (the front-end then names the object after
+// the package); OpenAPI and CUE inputs never carry an explicit entry point.
+func c12AddEntryCase(lab *Lab, d *Defs, format string, casing int) (*LabCase, string) {
+	id := fmt.Sprintf("c%d%s", len(lab.Cases), labFormatSuffix[format])
+	name := c12Casings(id)[casing%4]
+	if format == "jsonschema" {
+		name = id // the front-end names the top-level object after the package
+	}
+	rd := c12RenameDef(d, d.Root, name)
+	if rd == nil {
+		return nil, "rename failed"
+	}
+	dd, notes := degradeDefs(rd, format, lab.Opts.Degrade)
+	ro := renderDefs(dd, format, id)
+	if ro.Text == "" || len(ro.Unsupported) > 0 {
+		return nil, "not renderable: " + strings.Join(ro.Unsupported, ",")
+	}
+	text := ro.Text
+	if format == "jsonschema" {
+		doc, err := parseJV([]byte(ro.Text))
+		if err != nil {
+			return nil, "rendering is not JSON"
+		}
+		defs, _ := doc.get("definitions")
+		root, ok := defs.get(name)
+		if !ok || root.K != 'o' {
+			return nil, "no root definition"
+		}
+		top := jObj(kv("$schema", jStr("http://json-schema.org/draft-07/schema#")))
+		for _, e := range root.O {
+			top.O = append(top.O, e)
+		}
+		rest := jObj()
+		for _, e := range defs.O {
+			if e.K != name {
+				rest.O = append(rest.O, e)
+			}
+		}
+		top.O = append(top.O, JKV{"definitions", rest})
+		text = top.pretty() + "\n"
+	}
+	c := lab.AddCaseText(format, text, dd)
+	c.Degraded, c.Notes = notes, ro.Notes
+	c.RefSchemaText = ro.RefText
+	if format == "jsonschema" {
+		c.RefSchemaText = ro.Text // the reference validator reads the form with definitions + root $ref
+	}
+	return c, ""
+}
+
 // ---- boundary terms ------------------------------------------------------------------------------
 
 // c12BoundaryDefs draws a root struct whose members carry constraints, enumerations, constants and
@@ -705,6 +815,65 @@ func init() {
 			return err
 		}
 		stats := map[string]int{}
+		c12LabRows(out, lab, cases, docs, faults, stats)
+		fmt.Fprintf(out, "-\tstats %v\tok\n", stats)
+		return nil
+	})
+
+	// inferred entry points: the root object is named like the package in several casings and the input
+	// carries no explicit entry point; the emitted top-level `$ref` has to name a definition
+	register("c12-entry", func(args map[string]string, out *bufio.Writer) error {
+		opts := defaultLabOpts()
+		opts.NoPython = true
+		lab, err := NewLab(labWorkDir("c12entry-"+args["seed"]), opts)
+		if err != nil {
+			return err
+		}
+		defer lab.Close()
+		seed := uint64(argInt(args, "seed", 1))
+		n := argInt(args, "n", 4)
+		ndocs := argInt(args, "docs", 8)
+		from := argInt(args, "from", 0)
+		docs := map[string][]JV{}
+		faults := map[string][]Fault{}
+		var cases []*LabCase
+		stats := map[string]int{}
+		for i := from; i < from+n; i++ {
+			var d *Defs
+			if i%2 == 0 {
+				d = c12BoundaryDefs(seed, i)
+			} else {
+				d = genDefs(seed, i, argGenOpts(args).with("-ref.recursive"))
+			}
+			if c12RefersTo(d, d.Root) {
+				stats["root-is-referenced:skipped"]++
+				continue
+			}
+			for fi, f := range labFormats {
+				if only, ok := args["format"]; ok && only != f {
+					continue
+				}
+				c, why := c12AddEntryCase(lab, d, f, i+fi)
+				if c == nil {
+					stats["not-added:"+why]++
+					continue
+				}
+				cases = append(cases, c)
+				stats["root="+c.Defs.Root[:1]+"…:"+f]++
+				dg := newDocGen(c.Defs, newRng(seed*7919+uint64(i)*31+5), defaultDocOpts())
+				for k := 0; k < ndocs; k++ {
+					docs[c.ID] = append(docs[c.ID], dg.validDoc())
+				}
+				for k := 0; k < ndocs; k++ {
+					if fd, ok := dg.faultDoc(c12FaultKinds); ok {
+						faults[c.ID] = append(faults[c.ID], fd)
+					}
+				}
+			}
+		}
+		if err := lab.Build(); err != nil {
+			return err
+		}
 		c12LabRows(out, lab, cases, docs, faults, stats)
 		fmt.Fprintf(out, "-\tstats %v\tok\n", stats)
 		return nil
